@@ -10,8 +10,8 @@ RULE = ("the complete value-category tables (get / pair get / forward / forward_
         "reference_wrapper / function_ref / inplace_function call / bind_front / not_fn / apply / make_from_tuple / "
         "tuple_cat element transfer / pair assignment), every pair of pairs and of 2- and 3-tuples over {0,1,2}, all "
         "tuple_cat shapes up to 3 operands of arity <= 3, and inplace_function histories over 2 wrappers x 3 targets x 4 "
-        "target palettes: exhaustive to depth 2 over the full operation alphabet and to depth 4 over the core alphabet, "
-        "plus seeded random histories up to depth 14 (thorough: 3 wrappers, depth 3 / 5, more random); every history is "
+        "target palettes: exhaustive to depth 2 over the full operation alphabet (62 operations), to depth 4 over a 16-operation core alphabet and to depth 5 over a 10-operation alphabet with self swap / self assignment, "
+        "plus seeded random histories up to depth 14 (thorough: up to 4 wrappers, depths 3 / 5 / 6, more random); every history is "
         "followed by probes (bool and two calls per wrapper). non-trivial = distinct case line whose impl leg starts "
         "with ok / ill")
 
@@ -85,9 +85,15 @@ def gen_ipf(tier, rng):
             for o in full:
                 out.append(ipf_line(pal, nw, [c, o]))
                 out.append(ipf_line(pal, nw, [o, c]))
-    # exhaustive, core alphabet
+    # exhaustive, core alphabet (16 operations)
     for d in range(3, 5 if quick else 6):
         for h in itertools.product(core, repeat=d):
+            out.append(ipf_line(k % 4, nw, h))
+            k += 1
+    # exhaustive depth 5 (thorough: 6) over ten operations that include self swap, self copy / move assignment
+    mini = [(0, 0, 0), (0, 1, 1), (1, 0, 1), (1, 1, 1), (2, 0, 1), (2, 1, 1), (6, 0, 1), (6, 0, 0), (5, 0, 0), (8, 1, 9)]
+    for d in ((5,) if quick else (5, 6)):
+        for h in itertools.product(mini, repeat=d):
             out.append(ipf_line(k % 4, nw, h))
             k += 1
     # random, deeper, 2..3 wrappers, malformed indices now and then
